@@ -393,6 +393,52 @@ pub fn run(report: &mut Report, replay: Option<&Value>) {
             *x = Some(h ^ i as u64);
         }
     }
+    // many more documents through in-process generation + the syn cycle analysis; what it flags is
+    // added to the compiled batch (rustc decides)
+    {
+        let n_pre = if report.thorough() { 60_000 } else { 6_000 };
+        let pre_tapes = sample_tapes(report.seed, 0xC12C, n_pre, 3072);
+        let scratch = Scratch::new("c12f");
+        let mut jobs = Vec::new();
+        let mut which = Vec::new();
+        for tp in &pre_tapes {
+            let mut t = Tape::new(tp);
+            if let Some(b) = crate::cases::build_base(&mut t, &cfg, &mut stats) {
+                if !(b.features.has("recursive_fragment") || b.features.has("mutually_recursive_fragments")) {
+                    continue;
+                }
+                let mut opts = b.case.opts.clone();
+                opts.derive_mode = false;
+                opts.operation_name = None;
+                jobs.push(Job { schema_path: scratch.file(&b.case.schema_text, &b.case.schema_ext), query: QuerySrc::Text(b.case.document.clone()), opts, cwd: None });
+                which.push(tp.clone());
+            }
+        }
+        let outs = Pool::default().run(&jobs);
+        let mut flagged = 0u64;
+        for (o, tp) in outs.iter().zip(&which) {
+            report.evaluations += 1;
+            report.feature("recursive_fragment_document_analysed");
+            if let Outcome::Ok(tokens) = o {
+                if let Ok(c) = unboxed_cycles(tokens) {
+                    if !c.is_empty() {
+                        flagged += 1;
+                        if flagged <= 24 {
+                            if let Some(mut it) = super::c01::build_item(tp, &cfg, 4, &mut stats) {
+                                let h = fnv_str(&[&it.base.case.schema_text, &it.base.case.document]);
+                                for (i, x) in it.nt.iter_mut().enumerate() {
+                                    *x = Some(h ^ i as u64);
+                                }
+                                items.push(it);
+                            }
+                        }
+                    }
+                }
+            }
+        }
+        report.extra.insert("recursive_fragment_documents_analysed".into(), json!(which.len()));
+        report.extra.insert("recursive_fragment_documents_flagged_by_syn".into(), json!(flagged));
+    }
     report.count_extra("recursive_fragment_cases", items.len() as u64);
     if let Some(res) = run_items(report, "c12", &items, &hooks) {
         for (it, r) in items.iter().zip(&res) {
